@@ -66,7 +66,7 @@ def r1(ctx, R):
         fi = ctx.func(spec)
         ns = q.calls(fi, name="new_spec")
         sa = q.calls(fi, name="set_attr", recv="self")
-        R.need(len(ns) == 1 and len(sa) == 1, "%s: new_spec / set_attr not found" % spec)
+        R.must(len(ns) == 1 and len(sa) == 1, "%s: new_spec / set_attr not found" % spec)
         var = None
         st = fi.pm[ns[0]]
         if isinstance(st, ast.Assign) and isinstance(st.targets[0], ast.Name):
